@@ -26,7 +26,7 @@ type Control struct {
 	ExpectRule  string `json:"expect_rule,omitempty"`
 	Description string `json:"description"`
 	Edits       []Edit `json:"edits"`
-	Patch       string `json:"patch,omitempty"` // unified diff, path relative to the verif dir (seeded/<id>/patch.diff)
+	Patch       string `json:"patch,omitempty"`  // unified diff, path relative to the verif dir (seeded/<id>/patch.diff)
 	Origin      string `json:"origin,omitempty"` // e.g. "seeded/<id>" when derived from an independently written change
 }
 
